@@ -762,7 +762,7 @@ class Explorer:
                 # undecided: the success edge is followed under the assumption; the obligation is recorded
                 ops = tuple(self.operand(st, fr, t["msg"][k]) for k in ("a", "b", "len", "index") if k in t["msg"])
                 tys = tuple(self.operand_ty(fn, t["msg"][k]) for k in ("a", "b", "len", "index") if k in t["msg"])
-                st.effects.append(("assert", t["msg"]["k"], site, "open", (t["msg"].get("op"), cv, ops, tys)))
+                st.effects.append(("assert", t["msg"]["k"], site, "open", (t["msg"].get("op"), cv, ops, tys), dict(st.cons)))
                 if ev is not None:
                     self.assume_bool(st, ev, t["expected"])
                 fr.bb = t["t"]
@@ -908,7 +908,7 @@ class Explorer:
         callee = self.F.fns.get(path)
         if callee is not None and self.stub_pred is not None and self.stub_pred(callee):
             # summarised in-crate callee: its event word is a placeholder, every field may change
-            st.effects.append(("stub", path, tuple(args), site))
+            st.effects.append(("stub", path, tuple(args), site, len(st.cons)))
             res = ("vec", (("sub", path),)) if "GenericEvent" in callee["locals"][0] else SYM(self.cap(("call", path, tuple(args))))
             for i in self.mut_args(path, info, args):
                 if args[i][0] == "ref" and args[i][1] == ("self",) and not args[i][2]:
@@ -978,7 +978,7 @@ class Explorer:
         if callee.get("kind") == "Closure" and callee["argc"] == 2 and len(args) != 2:
             # closures take (env, args...) un-tupled in MIR already; nothing to do
             pass
-        st.effects.append(("enter", callee["path"], tuple(args), (fr.fn["path"], None)))
+        st.effects.append(("enter", callee["path"], tuple(args), (fr.fn["path"], None), len(st.cons)))
         stack.append(nf)
         return "entered"
 
@@ -1023,7 +1023,10 @@ class Explorer:
             r = self.opaque_hook(self, st, path, args, argterms, info)
             if r is not None:
                 res = r
-        st.effects.append(("call", path, tuple(args), argterms, res, site))
+        if SNAP_RE.search(path):
+            st.effects.append(("call", path, tuple(args), argterms, res, site, dict(st.cons)))
+        else:
+            st.effects.append(("call", path, tuple(args), argterms, res, site))
         # &mut arguments are havocked (after computing the result term from the pre-state)
         mut_idx = self.mut_args(path, info, args)
         for i in mut_idx:
@@ -1142,11 +1145,12 @@ class Explorer:
                 dt = ("discr", v[1], adt)
                 gd = self.variant_discr(adt, good)
                 known = st.cons.get(dt) == ("eq", gd)
+                snap = dict(st.cons)
                 if not self.constrain(st, dt, "eq", gd):
                     st.effects.append(("unwrap", p, v, site, "fails"))
                     self.finish_path(st, None, "panic")
                     return "stop"
-                st.effects.append(("unwrap", p, v, site, "discharged" if known else "open"))
+                st.effects.append(("unwrap", p, v, site, "discharged" if known else "open", None if known else snap))
                 return ret(SYM(self.cap(("field", v[1], 0))))
             st.effects.append(("unwrap", p, v, site, "open"))
             return None
@@ -1270,6 +1274,13 @@ class Explorer:
             b = self.deref(st, args[1])
             op = {"lt": "Lt", "le": "Le", "gt": "Gt", "ge": "Ge"}[name]
             return ret(self.binop(st, op, a, b))
+        if p in ("core::slice::<impl [T]>::is_empty", "std::vec::Vec::<T, A>::is_empty", "core::str::<impl str>::is_empty"):
+            a = self.deref(st, args[0])
+            if a[0] == "vec":
+                return ret(C(1 if not a[1] else 0, "bool")) if not any(isinstance(x, tuple) and x and x[0] in ("evs?", "nested", "sub") for x in a[1]) else None
+            rv = self.binop(st, "Eq", SYM(self.cap(("len", a))), C(0, "usize"))
+            st.effects.append(("call", path, tuple(args), (a,), rv, site))     # kept visible to the rules
+            return ret(rv)
         # ---- TypeId role tests
         if p == "std::any::TypeId::of":
             return ret(SYM(("typeid", info["targs"][0])))
@@ -1412,6 +1423,9 @@ class Explorer:
                 cargs.append(elem)
         st.effects.append(("closure_iter", clo[1], iteration))
         self.enter(st, stack, fr, callee, cargs, None, None, cont, closure=True)
+
+
+SNAP_RE = re.compile(r"(::index(_mut)?$)|(::copy_from_slice$)|(ArcPayload::new$)|(::split_at$)")
 
 
 def int_range(ty):
